@@ -32,13 +32,17 @@ def run(tier, seed):
             raise vlib.ToolError("ExprMC invariant %s violated in family %s" % (res.violated, fam))
         rows, stats = ac.replay(ctx, res.exports["EXPR"], cmd="expr-replay", sig_prefix="replay:expr", describe=describe)
         total += len(rows)
+        # the same cases end to end: the expression inside a check of a token / of the authorizer
+        ac.replay(ctx, res.exports["EXPR"], cmd="expr-e2e", sig_prefix="replay:expr-e2e", describe=describe)
     return ctx.finish(
         rule="Families: `binary` = 28 binary operators x 32^2 value pairs (10 integers incl. MIN, MAX, MAX-1, MIN+1, 2^62; strings; dates; bytes; bools; null; "
              "4 sets; 4 arrays incl. nested; 3 maps); `unary` = 4 x 32; `stack` = every operation sequence of length <= 3 over an 8-symbol alphabet "
              "(underflow, leftovers, misplaced closures); `closure` = lazy operators x erroring / non-boolean right sides, all/any over sets, arrays, maps "
              "and non-collections, wrong arity, nesting, shadowing of outer parameters and of rule variables; `compose` = a string computed by concatenation compared (4 equality operators, "
              "contains, get) with the same or another string written as a literal, held in an array / set / map key, bound by the rule, or computed too. TLC checks totality, type strictness "
-             "(Accepts table), laziness; every state is evaluated by Expression::evaluate and value-or-error must equal the spec's. %d cases." % total,
+             "(Accepts table), laziness; every state is evaluated by Expression::evaluate and value-or-error must equal the spec's; "
+             "every state is also evaluated END TO END: the expression is put in a check of a token's authority block and of the authorizer (builders, symbol tables, wire format, "
+             "rule engine): `E == v` must pass and `E != v` fail for the spec's value v, and a spec error must surface as an evaluation error of authorize(). %d cases." % total,
         exhaustive=True)
 
 
